@@ -101,7 +101,7 @@ for pid in props:
             "replay_cmd_template": f"./check {pid} --replay {{path}}",
             "engine": "miri" if pid == "C14" else "dsim",
             "level_claimed": {"category": "exploration", "text": text, "design_ref": ref},
-            "level_note": note,
+            "level_note": note + (" The thorough tier additionally runs a small plain-thread program for this property under Miri's seeded scheduler (weak-memory emulation, data-race detection) and records it under coverage.miri." if pid in ("C02", "C03", "C05", "C16", "C20") else ""),
             "technique": tech,
         })
 na = []
@@ -120,7 +120,7 @@ m = {
     "add_only": True,
   },
   "engines": [
-    {"name": "miri", "path": "/verif/miri", "serves_properties": ["C14"], "kind_free_text": "Miri as a seeded interpreter: cargo +nightly miri run -Zmiri-many-seeds over shadow crates that build /repo source files with the guard off; replay = (program, interpreter seed, flags)"},
+    {"name": "miri", "path": "/verif/miri", "serves_properties": ["C14", "C02", "C03", "C05", "C16", "C20"], "kind_free_text": "Miri as a seeded interpreter: cargo +nightly miri run -Zmiri-many-seeds over shadow crates that build /repo source files with the guard off; replay = (program, interpreter seed, flags). Decides C14; second engine in the thorough tier of C02, C03, C05, C16, C20 (weak-memory emulation, data-race / use-after-free detection at basic-block pre-emption granularity)"},
     {"name": "dsim", "path": "/verif/dsim", "serves_properties": sorted(p for p in CLAIMED if p != "C14"), "kind_free_text": "deterministic simulation with fault injection: real code on real OS threads, one baton, seeded scheduler (random/sticky/PCT/round-robin), virtual time, seeded fault streams, replay + minimisation"},
   ],
   "checks": checks,
